@@ -62,6 +62,12 @@ func run(c *Ctx) {
 		scripts = append(scripts, sc)
 	}
 	ml.RunScripts(c, "c04", scripts)
+	for _, hevc := range []bool{false, true} {
+		for _, mode := range []string{"panic", "block"} {
+			ml.RecordOutcome(c, ml.ScPanicBadClose(mode, false, hevc), "c04")
+			ml.RecordOutcome(c, ml.ScPanicBadClose(mode, true, hevc), "c04")
+		}
+	}
 	ml.RecordOutcome(c, ml.ScBacklogStap(false), "c04")
 	ml.RecordOutcome(c, ml.ScBacklogStap(true), "c04")
 
